@@ -3,6 +3,7 @@
  */
 
 #pragma once
+#include "verif_hooks.h"
 
 #include "base_node.h"
 #include "border_node.h"
@@ -158,6 +159,7 @@ retry:
         } else if (check_status == status::OK_RETRY_FROM_ROOT) {
             clean_up_tuple_list_nvc(initial_size_of_tuple_list,
                                     initial_size_of_node_version_vec);
+            YK_WAIT(YK_W_RETRY, nullptr);
             goto retry; // NOLINT
         }
     }
@@ -265,6 +267,7 @@ retry:
             return status::OK_RETRY_FROM_ROOT;
         }
         if (check_status == status::OK_RETRY_AFTER_FB) {
+            YK_WAIT(YK_W_RETRY, nullptr);
             goto retry; // NOLINT
         }
         if (kl > sizeof(key_slice_type)) {
@@ -327,6 +330,7 @@ retry:
             if (check_status != status::OK) {
                 // failed. clean up tuple list and node vesion vec.
                 clean_up_tuple_list_nvc();
+                YK_WAIT(YK_W_RETRY, nullptr);
                 goto retry; // NOLINT
             }
             if (max_size != 0 && tuple_list.size() >= max_size) {
@@ -437,6 +441,7 @@ retry:
         return status::OK_RETRY_FROM_ROOT;
     }
     if (check_status == status::OK_RETRY_AFTER_FB) {
+        YK_WAIT(YK_W_RETRY, nullptr);
         goto retry; // NOLINT
     }
 
